@@ -10,6 +10,8 @@ package sessions
 // cachedCookieJar: the jar returned is the one stored under exactly this session id, or a new jar that is stored under
 // exactly this session id. Rely (guaranteed by addJarToCache, the only writer): cache values are cookie jars.
 //@ func (*Cache).cachedCookieJar props(C10,C07)
+//@   local c recv 0 0
+//@   local sessionID param 0 0
 //@   requires c != nil && c.cache != nil && !held(c.mu)
 //@   assigns ghost lruHas[c.cache], ghost lruEv[c.cache]
 //@   ghost hit bool = false
@@ -27,6 +29,9 @@ package sessions
 //@   ensures[C07:lookup-never-fails] err == nil
 
 //@ func (*Cache).addJarToCache props(C10,C07)
+//@   local c recv 0 0
+//@   local jar param 0 1
+//@   local sessionID param 0 0
 //@   requires c != nil && c.cache != nil && !held(c.mu)
 //@   assigns ghost lruHas[c.cache], ghost lruEv[c.cache]
 //@   ghost adds int = 0
@@ -38,6 +43,9 @@ package sessions
 // WriteHeader: backend cookies never reach the client; the only Set-Cookie is the agent's session cookie, issued only
 // when the request carried no session; intercepted cookies go to the jar of exactly this writer's session.
 //@ func (*sessionResponseWriter).WriteHeader props(C10,C07)
+//@   local cookiesToAdd define 0 0 ( & http . Response { Header : _ } ) . Cookies ( )
+//@   local statusCode param 0 0
+//@   local w recv 0 0
 //@   requires w != nil && w.c != nil && w.c.cache != nil && !held(w.c.mu) && w.wrapped != nil && w.urlForCookies != nil && rwWrites[w.wrapped] == 0
 //@   ghost commits int = 0
 //@   ghost jarG ref = nil
@@ -74,6 +82,8 @@ package sessions
 // Write: a handler that writes a body without calling WriteHeader still goes through the cookie filter first
 // (otherwise net/http would commit the backend's Set-Cookie fields implicitly); the bytes go to the wrapped writer as given.
 //@ func (*sessionResponseWriter).Write props(C10,C07)
+//@   local bs param 0 0
+//@   local w recv 0 0
 //@   requires w != nil && w.c != nil && w.c.cache != nil && !held(w.c.mu) && w.wrapped != nil && w.urlForCookies != nil && (!w.wroteHeader ==> rwWrites[w.wrapped] == 0)
 //@   ghost commits int = 0
 //@   ghost writes int = 0
@@ -88,6 +98,10 @@ package sessions
 // restoreSession: the Cookie header becomes the client's cookies without the session cookie (every other one kept, in
 // order), followed by the cached cookies of the session in order.
 //@ func (*sessionHandler).restoreSession props(C10,C07)
+//@   local cachedCookies param 0 1
+//@   local existingCookies define 0 0 _ . Cookies ( )
+//@   local h recv 0 0
+//@   local r param 0 0
 //@   requires h != nil && h.c != nil && r != nil && r.Header != nil && forall(i, 0, len(cachedCookies), cachedCookies[i] != nil)
 //@   assigns mapof(r.Header)
 //@   ghost phase int = 0
@@ -114,6 +128,11 @@ package sessions
 // ServeHTTP: the jar consulted and the writer handed on are those of the session id presented by this very request;
 // cookies are looked up for the request URL with scheme https and the request's Host; the wrapped handler runs once.
 //@ func (*sessionHandler).ServeHTTP props(C10,C07)
+//@   local cachedCookies define 0 0 _ . Cookies ( & _ )
+//@   local h recv 0 0
+//@   local r param 0 1
+//@   local urlForCookies define 0 0 * ( _ . URL )
+//@   local w param 0 0
 //@   requires h != nil && h.c != nil && h.c.cache != nil && !held(h.c.mu) && h.wrapped != nil && w != nil && r != nil && r.URL != nil && r.Header != nil && rwWrites[w] == 0
 //@   ghost sid string = ""
 //@   ghost jarG ref = nil
@@ -142,6 +161,8 @@ package sessions
 //@   ensures[C10:served-or-500] served == 1 || (rwStatus[w] == 500 && rwWrites[w] == 1)
 
 //@ func (*Cache).SessionHandler props(C10,C07)
+//@   local c recv 0 0
+//@   local wrapped param 0 0
 //@   assigns nothing
 //@   ensures[C10:disabled-means-unwrapped] c == nil ==> r0 == wrapped
 //@   ensures[C10:handler-returned] wrapped != nil ==> r0 != nil
